@@ -132,3 +132,10 @@ pub fn file_of<'tcx>(tcx: TyCtxt<'tcx>, span: rustc_span::Span) -> String {
 pub fn def_path<'tcx>(tcx: TyCtxt<'tcx>, did: rustc_hir::def_id::DefId) -> String {
     tcx.def_path_str(did)
 }
+
+pub fn vis_str<'tcx>(tcx: TyCtxt<'tcx>, v: rustc_middle::ty::Visibility<rustc_hir::def_id::DefId>) -> String {
+    match v {
+        rustc_middle::ty::Visibility::Public => "Public".to_string(),
+        rustc_middle::ty::Visibility::Restricted(d) => format!("Restricted({})", tcx.def_path_str(d)),
+    }
+}
